@@ -128,7 +128,7 @@ func cmdCheck(args []string) {
 	repo := fs.String("repo", "/repo", "")
 	verif := fs.String("verif", "/verif", "")
 	tier := fs.String("tier", "quick", "")
-	jobs := fs.Int("j", 6, "")
+	jobs := fs.Int("j", 8, "")
 	noEvidence := fs.Bool("no-evidence", false, "")
 	fs.Parse(args)
 	if fs.NArg() < 1 {
@@ -236,7 +236,7 @@ func cmdCheck(args []string) {
 	structObls := e.structuralChecks(prop)
 	genS := time.Since(t0).Seconds() - loadS
 
-	solveAll(allObls, solveOpts{timeoutS: timeout, workDir: work, jobs: *jobs, seed: seed, all: *tier == "thorough"})
+	solveAll(allObls, solveOpts{timeoutS: timeout, workDir: work, jobs: *jobs, seed: seed, all: *tier == "thorough", fullCovers: *tier == "thorough"})
 
 	// classify
 	violations := 0
